@@ -420,6 +420,9 @@ func (ex *Exec) callFunc(f *FuncV, args []Value, st *State, site *ast.CallExpr) 
 		return ex.callExternal(&FuncV{Named: f.Obj.FullName(), Obj: f.Obj, Recv: f.Recv}, args, st, site)
 	}
 	recv := f.Recv
+	if len(ex.uninterp) > 0 && recv == nil && ex.uninterp[fi.Pkg.Name+"."+fi.Decl.Name.Name] {
+		return ex.callUninterpreted(fi, args, st)
+	}
 	if len(ex.prog.OpaqueSpec) > 0 {
 		rn := ""
 		if sig := fi.Obj.Type().(*types.Signature); sig.Recv() != nil {
@@ -715,4 +718,104 @@ func resultTypes(fi *FuncInfo) []types.Type {
 		out = append(out, sig.Results().At(i).Type())
 	}
 	return out
+}
+
+// callUninterpreted: the block under verification asked to treat this function as an arbitrary
+// pure function of its arguments (clause `uninterpreted pkg.F`). Sound for any proof because the
+// real function is one such function, provided it is deterministic and free of effects: checked
+// syntactically here (value parameters only, no writes to package state anywhere below it).
+func (ex *Exec) callUninterpreted(fi *FuncInfo, args []Value, st *State) Value {
+	ex.checkPure(fi)
+	var flat []*Term
+	for _, a := range args {
+		ex.flattenAny(a, st, &flat)
+	}
+	res := resultTypes(fi)
+	if len(res) != 1 {
+		unsupported("uninterpreted %s: exactly one result expected", fi.Decl.Name.Name)
+	}
+	ex.assumptions["calls of "+fi.Pkg.Name+"."+fi.Decl.Name.Name+" treated as an uninterpreted pure function in this block (no panic for in-range arguments and its meaning are established by the C06 lemmas that inline it)"] = true
+	return ex.ufResult("pure."+fi.Pkg.Name+"."+fi.Decl.Name.Name, res[0], flat, st)
+}
+
+func (ex *Exec) checkPure(fi *FuncInfo) {
+	if ex.pureOK == nil {
+		ex.pureOK = map[*FuncInfo]bool{}
+	}
+	if ex.pureOK[fi] {
+		return
+	}
+	sig := fi.Obj.Type().(*types.Signature)
+	for i := 0; i < sig.Params().Len(); i++ {
+		if !valueOnly(sig.Params().At(i).Type()) {
+			unsupported("uninterpreted %s: parameter %s is not a plain value", fi.Decl.Name.Name, sig.Params().At(i).Name())
+		}
+	}
+	seen := map[*FuncInfo]bool{}
+	var walk func(f *FuncInfo)
+	walk = func(f *FuncInfo) {
+		if seen[f] {
+			return
+		}
+		seen[f] = true
+		info := f.Pkg.TypesInfo
+		ast.Inspect(f.Decl.Body, func(n ast.Node) bool {
+			switch x := n.(type) {
+			case *ast.GoStmt, *ast.SendStmt, *ast.DeferStmt, *ast.SelectStmt:
+				unsupported("uninterpreted %s: %T in %s", fi.Decl.Name.Name, n, f.Decl.Name.Name)
+			case *ast.AssignStmt:
+				for _, l := range x.Lhs {
+					if id := rootIdent(l); id != nil {
+						if v, ok := info.ObjectOf(id).(*types.Var); ok && v.Parent() == v.Pkg().Scope() {
+							unsupported("uninterpreted %s: %s writes package variable %s", fi.Decl.Name.Name, f.Decl.Name.Name, v.Name())
+						}
+					}
+					if _, isStar := ast.Unparen(l).(*ast.StarExpr); isStar {
+						unsupported("uninterpreted %s: %s writes through a pointer", fi.Decl.Name.Name, f.Decl.Name.Name)
+					}
+				}
+			case *ast.Ident:
+				if v, ok := info.ObjectOf(x).(*types.Var); ok && v.Pkg() != nil && v.Parent() == v.Pkg().Scope() {
+					if w := ex.prog.Written[v]; len(w) > 0 {
+						unsupported("uninterpreted %s: reads package variable %s that is written outside init", fi.Decl.Name.Name, v.Name())
+					}
+				}
+			case *ast.CallExpr:
+				var obj types.Object
+				switch fn := ast.Unparen(x.Fun).(type) {
+				case *ast.Ident:
+					obj = info.ObjectOf(fn)
+				case *ast.SelectorExpr:
+					obj = info.ObjectOf(fn.Sel)
+				}
+				if fo, ok := obj.(*types.Func); ok {
+					if callee := ex.prog.Funcs[fo]; callee != nil && callee.Decl.Body != nil {
+						walk(callee)
+					} else if fo.Pkg() != nil && fo.Pkg().Path() != "math/bits" {
+						unsupported("uninterpreted %s: calls %s outside the module", fi.Decl.Name.Name, fo.FullName())
+					}
+				}
+			}
+			return true
+		})
+	}
+	walk(fi)
+	ex.pureOK[fi] = true
+}
+
+func valueOnly(t types.Type) bool {
+	switch u := t.Underlying().(type) {
+	case *types.Basic:
+		return u.Kind() != types.UnsafePointer
+	case *types.Struct:
+		for i := 0; i < u.NumFields(); i++ {
+			if !valueOnly(u.Field(i).Type()) {
+				return false
+			}
+		}
+		return true
+	case *types.Array:
+		return valueOnly(u.Elem())
+	}
+	return false
 }
